@@ -15,6 +15,15 @@
        messages, in particular "carries sequence number q"): held (in flight + inbox + queue) + got + unresolvable +
        discarded + dropped = sent (C05E_ledger_balance).  Hence at most once; exactly once for a message that is sent,
        no longer held, not discarded, not dropped, and resolvable (C05E_exactly_once_when_drained).
+   E2  once, under [escript_ok] and distinct sequence numbers (`seqs_distinct`): for every number q and slot,
+       [q buffered] + [q still to be emitted] + [q handed to the backend for the slot] never increases (C05E_potential):
+       an event is sent at most once per slot in the whole run (C05E_sent_once), never again once it is flushed
+       (C05E_not_resent: 0 for ever for a slot that was not a recipient), and a recipient of the flush has exactly one
+       copy accounted for from then on (C05E_one_copy; who the recipients are: C05_send_buffered_recipients).
+   E2  late joiners, every script: the ghost `births` (`brun`) records the connection-id counter at the creation of every
+       buffered set; a recipient of a flush has an id below the birth of the event's set: it was connected when the event
+       was emitted (C05E_births_invariant, C05E_recipient_connected_before_emission).
+   E2  client events, every script: the mirror ledger `cledger` (`clrun`) per SENDER slot (C05E_client_events_balance).
    E2  attribution, under [escript_ok] (Properties/C04E.v): everything a live connection holds or has handed to its game
        logic was handed to the backend for it in its CURRENT session (C05E_attribution) - with
        C05_no_event_from_before_connection (a connection is excluded from everything buffered when it starts) nothing
@@ -23,13 +32,14 @@
        conversion step, followed by what it still holds (queue, inbox, link), is what was sent to it in this session, in
        sending order (C05E_order): events of one type are observed in sending order and none is skipped; the stamps of a
        type never decrease in sending order (C05E_attribution).  Client side: C05E_frame_order.
-   Proofs: Events/RemoteRunLedger_proofs.v, Events/RemoteRunQueue_proofs.v, Events/RemoteRunOrder_proofs.v. *)
+   Proofs: Events/RemoteRunLedger_proofs.v, Events/RemoteRunQueue_proofs.v, Events/RemoteRunOrder_proofs.v,
+   Events/RemoteRunOnce_proofs.v, Events/RemoteRunE2_proofs.v, Events/RemoteRunBirth_proofs.v, Events/RemoteRunC2S_proofs.v. *)
 From Coq Require Import Sorted Permutation.
 From RV Require Import Lib.Res Repl.ClientTicks Repl.World Repl.Server Repl.Client Repl.Sys Tick.RepliconTick
   Repl.StructE2EMut_proofs Repl.StructE2ESess_proofs Repl.ValSpec.
 From RV Require Import Events.Remote Events.RemoteSpec Events.Remote_proofs Events.RemoteRun Events.RemoteRunProj_proofs
   Events.RemoteRunTick_proofs Events.RemoteRunE1_proofs Events.RemoteRunLedger_proofs Events.RemoteRunQueue_proofs
-  Events.RemoteRunOrder_proofs Events.RemoteRunOnce_proofs Events.RemoteRunE2_proofs.
+  Events.RemoteRunOrder_proofs Events.RemoteRunOnce_proofs Events.RemoteRunE2_proofs Events.RemoteRunBirth_proofs Events.RemoteRunC2S_proofs.
 Open Scope N_scope.
 
 (* ---------- the runs with ghosts are the runs ---------- *)
@@ -140,6 +150,40 @@ Theorem C05E_one_copy : forall c n pre st rest e1 g1 os1 e2 o2 e3 g3 os3 slot m 
    + count_seq q (for_slot slot (lt_disc g3)) + count_seq q (for_slot slot (lt_drop g3)))%nat = 1%nat.
 Proof. exact e2_one_copy. Qed.
 
+(* ---------- E2: a client never receives an event sent before it connected ---------- *)
+
+(* the ghost `births` (run `brun`): for every buffered set the value of the connection-id counter when the set was
+   created, i.e. in the server frame of the emission.  In every run: a connection whose id is not below the birth of a
+   set (it started in or after that frame: its id is the counter's value at its `StConnect`,
+   C05_no_event_from_before_connection) is excluded from the set *)
+Theorem C05E_births_invariant : forall c n script e b os,
+  brun (syse_init c n) [] script = Ok (e, b, os) ->
+  Forall2 (fun set birth => birth <= e_next_uid e /\
+                            forall slot uid, uid_of e slot = Some uid -> birth <= uid -> In uid (bs_excluded set)) (e_buffer e) b.
+Proof. exact binv_run. Qed.
+
+(* hence a dependent event is flushed only to connections that existed when it was emitted: the id of a recipient is
+   below the birth of the event's set (the last birth, `e_next_uid e`, is that of the set of this frame's emissions) *)
+Theorem C05E_recipient_connected_before_emission : forall c n pre e b os tick dt cleanup ops parts emit e' o,
+  brun (syse_init c n) [] pre = Ok (e, b, os) -> syse_step e (ESFrame tick dt cleanup ops parts emit) = Ok (e', o) ->
+  forall slot m, In (slot, m) (eo_sent o) -> sm_tick m <> None ->
+  exists uid birth, uid_of e slot = Some uid /\ In birth (b ++ [e_next_uid e]) /\ uid < birth /\
+                    (forall birth', In birth' b -> birth' <= e_next_uid e).
+Proof. exact recipient_born_before_run. Qed.
+
+(* ---------- E2, client events: the mirror statement towards the server, with the sender's slot ---------- *)
+
+(* the ledger `cledger` (run `clrun`): per sender slot, in the link + received by the server backend + handed to server
+   logic tagged with that slot (`eo_from`) + discarded (session end, stopped server, sender without record) = handed to
+   the backend by the client app of that slot (`eo_csent`); for every predicate, in every run: at most once, nothing
+   under a wrong sender, exactly once when nothing is held or discarded *)
+Theorem C05E_client_events_balance : forall c n script e g os,
+  clrun (syse_init c n) cl_init script = Ok (e, g, os) ->
+  forall (p : cev -> bool) slot,
+    (cntc p (chan_c2s e slot) + cntc p (for_slot slot (e_inbox e)) + cntc p (for_slot slot (lc_from g))
+     + cntc p (for_slot slot (lc_disc g)))%nat = cntc p (for_slot slot (lc_sent g)).
+Proof. exact cledger_run. Qed.
+
 (* ---------- E2 attribution and E3 order: the invariant of live connections ---------- *)
 
 Theorem C05E_invariant : forall c n script e gu gl os,
@@ -197,6 +241,9 @@ Print Assumptions C05E_potential.
 Print Assumptions C05E_sent_once.
 Print Assumptions C05E_not_resent.
 Print Assumptions C05E_one_copy.
+Print Assumptions C05E_births_invariant.
+Print Assumptions C05E_recipient_connected_before_emission.
+Print Assumptions C05E_client_events_balance.
 Print Assumptions C05E_invariant.
 Print Assumptions C05E_attribution.
 Print Assumptions C05E_order.
@@ -293,3 +340,28 @@ Proof.
     { vm_compute in E1. injection E1 as <- _ _. vm_compute in E2. injection E2 as _ <-. destruct Hslot as [-> | ->]; vm_compute; tauto. }
     exact (proj2 (C05E_one_copy c05e_cfg 2 c05e_pre c05e_flush c05e_rest e1 g1 os1 e2 o2 e g os3 slot _ 1 (proj1 C05E_ex_run) Hb C05E_ex_seqs E1 E2 E3 Hin eq_refl)).
 Qed.
+
+(* a client connecting between the emission and the flush: client 0 connected, SE0/7 emitted in a frame without tick,
+   client 1 connects (id 2), the next tick flushes SE0/7 to client 0 only; the set was born at counter value 2 *)
+Definition c05e_late : list estep :=
+  [EBase StStart; EBase (StConnect 0 1200); esf5 true [] []; esf5 false [] [(SE0, (999, false, false), 7, None)]; EBase (StConnect 1 1200)].
+Example C05E_ex_late_joiner :
+  match brun (syse_init c05e_cfg 2) [] c05e_late with
+  | Ok (e, b, _) => Some (b, e_uids e, map bs_excluded (e_buffer e),
+                          match syse_step e (esf5 true [] []) with Ok (_, o) => Some (eo_sent o) | _ => None end)
+  | _ => None
+  end = Some ([2], [(0, 1); (1, 2)], [[2]], Some [(0, mkSMsg SE0 (Some 0) 7 None)]).
+Proof. vm_compute. reflexivity. Qed.
+
+(* client events: client 0 sends CE0/5 and CEM/3 (about the mapped entity 1); CE0/5 reaches server logic tagged with slot 0,
+   CEM/3 is still in the link when client 0 is disconnected *)
+Definition c05e_c2s : list estep :=
+  [EBase StStart; EBase (StConnect 0 1200); esf5 true [SSpawn 1 true [(0, VNat 5)]] [];
+   EBase (StDeliver 0 true 0 All); ECFrame 0 [] [mkCev CEM 3 (Some 1); mkCev CE0 5 None];
+   EDeliverC2S 0 CE0 All; esf5 true [] []; EBase (StDisconnect 0)].
+Example C05E_ex_client_events :
+  match clrun (syse_init c05e_cfg 1) cl_init c05e_c2s with
+  | Ok (e, g, os) => Some (lc_sent g, lc_from g, lc_disc g, e_c2s e, e_inbox e)
+  | _ => None
+  end = Some ([(0, mkCev CE0 5 None); (0, mkCev CEM 3 (Some 1))], [(0, mkCev CE0 5 None)], [(0, mkCev CEM 3 (Some 1))], [(0, [])], []).
+Proof. vm_compute. reflexivity. Qed.
